@@ -168,6 +168,8 @@ MUTANTS = [
     ("activation-listen-fds-missing", "varlink/src/client.rs", r'\s*\.env\("LISTEN_FDS", "1"\)', "", {"C16"}),
     ("activation-listen-pid-not-exported", "varlink/src/client.rs",
      r'String::from\("export LISTEN_PID=\$\$; exec "\)', 'String::from("exec ")', {"C16"}),
+    ("bridge-command-stdio-shares-one-descriptor", "varlink/src/client.rs",
+     r"let childout = childin\.try_clone\(\)\.map_err\(map_context!\(\)\)\?;", "let childout = unsafe { ::std::fs::File::from_raw_fd(fd) };", {"C16"}),
 ]
 
 
